@@ -18,9 +18,11 @@ def parseSub (s : String) : Option Subnet :=
     pure ⟨← famOf f, ← ip.toNat?, ← w.toNat?, ← fp.toNat?, ← lp.toNat?⟩
   | _ => none
 
+/-- A name server is given as `<numeric name>,<text as written>`; its family is decided by the
+model's `familyOfText`, as `helpers.family_ip_tuple` decides it in the code. -/
 def parseNs (s : String) : Option Ns :=
-  match s.splitOn ":" with
-  | [f, ip] => do pure ⟨← famOf f, ← ip.toNat?⟩
+  match s.splitOn "," with
+  | [ip, text] => do pure ⟨familyOfText text, ← ip.toNat?⟩
   | _ => none
 
 def parseFA (s : String) : Option (Fam × Addr) :=
